@@ -102,8 +102,9 @@ class LayeredSphere(Sphere):
         specifies coordinates of center of sphere
     """
     def __init__(self, n=None, t=None, center=None):
-        self.n = ensure_array(n)
-        self.t = ensure_array(t)
+        # (a dictionary holds one value per illumination channel)
+        self.n = n if isinstance(n, dict) else ensure_array(n)
+        self.t = t if isinstance(t, dict) else ensure_array(t)
         # same checks as any other centered scatterer / sphere
         CenteredScatterer.__init__(self, center)
         try:
